@@ -487,7 +487,7 @@ export function read(o) { return o.foo_; }
 }
 
 func runC15(c *Check) {
-	c.Rule = "scope trees of depth 3 (17 scope kinds incl. catch, for-let, named function/class expression self-binding, parameter-default scope, class static block, label, direct eval, with) x 9 declaration kinds per scope (var/let/const/function/class/destructuring/function-in-nested-block) x name assignments drawn from a pool that collides with minifier-generated names and with free globals of the same names; every reference site logs the value it sees, a closure created in the innermost scope is called at the end; input vs output under 7 configurations (minify-identifiers, all, keep-names, iife, target es2015) executed in V8; multi-file bundles with identical top-level names vs native loading; mangle-props consistency across files/positions/cache; distinct = distinct outputs"
+	c.Rule = "scope trees of depth 3 (17 scope kinds incl. catch, for-let, named function/class expression self-binding, parameter-default scope, class static block, label, direct eval, with) x 9 declaration kinds per scope (var/let/const/function/class/destructuring/function-in-nested-block) x name assignments drawn from a pool that collides with minifier-generated names and with free globals of the same names; every reference site logs the value it sees, a closure created in the innermost scope is called at the end; input vs output under 7 configurations (minify-identifiers, all, keep-names, iife, target es2015) executed in V8; multi-file bundles with identical top-level names vs native loading; mangle-props consistency across files/positions/cache; distinct = distinct outputs; cross-chunk aliases: 4 shared modules x all 256 assignments of colliding names under code splitting; program symbols named like generated temporaries"
 	c.Assump = []string{"binding identity is decided by execution: every declaration carries a unique tag and all code is executed", "function/class .name is not observed without keep-names; TDZ is not observed"}
 	pool := NewNodePool("")
 	defer pool.Close()
